@@ -243,8 +243,31 @@ def rprog(rng, d, extras=True):
 
 
 # ------------------------------------------------------------------ running
-def run_lattice(cx, exe, drv, cases, label):
+MAX_REPORTED = 12   # distinct fresh per-program violations reported per stream (all are counted in the log)
+
+
+class _Capped:
+    """Forwards to the Check but stops reporting per-program violations after `cap` distinct keys
+    (class keys and broke() always pass)."""
+
+    def __init__(self, cx, cap):
+        self.cx, self.cap, self.keys, self.dropped = cx, cap, set(), 0
+
+    def violation(self, key, desc, rep):
+        if ":" in key and key not in self.keys and len(self.keys) >= self.cap:
+            self.dropped += 1
+            return
+        self.keys.add(key)
+        self.cx.violation(key, desc, rep)
+
+    def broke(self, name, desc):
+        self.cx.broke(name, desc)
+
+
+def run_lattice(cx, exe, drv, cases, label, cap=None):
     """cases: list of (id, mode, program).  Returns dict id -> result dict."""
+    if cap is not None:
+        cx = _Capped(cx, cap)
     lines = ["L %s %d %s" % (cid, mode, prefix(e)) for cid, mode, e in cases]
     kl = lambda l: l.split()[1] if l.startswith("L ") else None
     ko = lambda l: l.split()[1] if l.startswith("ST ") else None
@@ -543,7 +566,7 @@ def run(cx):
                         i += 1
     for s in range(0, len(pairs), 20000):
         chunk = pairs[s:s + 20000]
-        res, nv = run_lattice(cx, exe, drv, chunk, "pairs")
+        res, nv = run_lattice(cx, exe, drv, chunk, "pairs", cap=MAX_REPORTED)
         account(chunk, res, "pair")
     cx.log("pairs and plane cuts of boxes: %d programs checked" % len(pairs))
     # (ii) nested programs (operands are Boolean results; Split/SplitByPlane/TrimByPlane/BatchBoolean inside):
@@ -557,9 +580,20 @@ def run(cx):
         progs.append(("n%d" % i, frng.randrange(2), rprog(frng, d)))
     for s in range(0, len(progs), 20000):
         chunk = progs[s:s + 20000]
-        res, nv = run_lattice(cx, exe, drv, chunk, "nested")
+        res, nv = run_lattice(cx, exe, drv, chunk, "nested", cap=MAX_REPORTED)
         account(chunk, res, "nested-depth")
     cx.log("nested programs (fixed stream): %d checked" % len(progs))
+    # search: a proof obligation / the translator no longer checks -> spend extra budget on seed-dependent nested programs
+    # (the coincident-geometry regime every proved kernel is about) to turn the broken tie into a concrete failing input
+    if cx.broken:
+        srng = random.Random(cx.seed * 31337 + 5)
+        extra = [("s%d" % i, srng.randrange(2), rprog(srng, srng.choice([2, 3, 3, 4]))) for i in range(N_SEARCH)]
+        found = 0
+        for s in range(0, len(extra), 20000):
+            res, nv = run_lattice(cx, exe, drv, extra[s:s + 20000], "search", cap=MAX_REPORTED)
+            found += nv
+        cx.log("search after broken obligations: %d programs, %d rejected" % (len(extra), found))
+        cx.cov["search_after_broken"] = {"programs": len(extra), "rejected": found}
     for cid, mode, e in (progs[:2] + pairs[:1]):
         cx.sample({"program": prog_key(e, mode)[1], "prefix": prefix(e)})
     # (iii) generic position
@@ -590,3 +624,4 @@ FIXED_STREAM_SEED = 20250923
 NQ_PAIRS, NQ_PLANE = 5000, 1500
 NQ_NEST, NT_NEST = 4000, 80000
 NQ_GEN, NT_GEN = 24, 300
+N_SEARCH = 60000
